@@ -83,6 +83,33 @@ def _mk(it, name):
     raise KeyError(name)
 
 
+def _other_objects(M, it=None, under_check="PSK"):
+    """other modulators of the same cardinality, created (and re-configured) AFTER the object under check: its curves are a function
+    of its own constellation only.  With `it` they are created through the interpreter, else natively."""
+    from pyphysim.modulators import fundamental as f
+    mk = (lambda cls, *a: it.call(cls, list(a))) if it is not None else (lambda cls, *a: cls(*a))
+    out = []
+    if M >= 2:
+        out.append(mk(f.PSK, M))
+        p2 = mk(f.PSK, M, 0.3)
+        if it is not None:
+            it.call(it.getattr(p2, "setPhaseOffset"), [0.1])
+        else:
+            p2.setPhaseOffset(0.1)
+        out.append(p2)
+    L = int(round(math.sqrt(M)))
+    if L * L == M and M >= 4 and (M & (M - 1)) == 0:
+        out.append(mk(f.QAM, M))
+    if M == 2:
+        out.append(mk(f.BPSK))
+    if M == 4:
+        out.append(mk(f.QPSK))
+    if under_check == "QAM":
+        # the most recently created object is of ANOTHER class than the one under check
+        out.append(mk(f.PSK, M, 0.2))
+    return out
+
+
 def _call(it, o, meth, *args, **kw):
     return it.call(it.getattr(o, meth), list(args), kw)
 
@@ -111,6 +138,7 @@ def ob_curves(mod):
         symbols = it.getattr(o, "symbols")
         M = len(symbols)
         dmin, nn, energy = _measure(symbols)
+        _other_objects(M, it, "QAM" if mod.startswith("QAM") else "PSK")              # history: other modulators of the same size exist and were re-configured meanwhile
         k = int(round(math.log2(M)))
         s, s2 = c.var("s", "real"), c.var("s2", "real")
         c.inputs.update(s=s, s2=s2)
@@ -149,6 +177,7 @@ def ob_curves(mod):
     def rp(mv):
         from pyphysim.modulators import fundamental as f
         o = dict((nm, mk) for nm, mk, _ in _configs())[mod]()
+        _other_objects(len(o.symbols), None, "QAM" if mod.startswith("QAM") else "PSK")
         s, s2 = float(mv.get("s", 0)), float(mv.get("s2", 1))
         s, s2 = max(min(s, 60), -30), max(min(s2, 60), -30)
         dmin, nn, energy = _measure(o.symbols)
@@ -321,6 +350,10 @@ def ob_float_grid():
         dmin, nn, energy = _measure(o.symbols)
         if (not (dmin > 0)):
             return {"coinciding constellation points, minimum distance": dmin}
+        before = np.asarray(o.calcTheoreticalSER(np.arange(-30, 60.25, 0.5)), dtype=float)
+        _other_objects(M, None, case["mod"])                  # other modulators of the same size created / re-configured meanwhile
+        if not np.array_equal(before, np.asarray(o.calcTheoreticalSER(np.arange(-30, 60.25, 0.5)), dtype=float)):
+            return {"SER curve of this object changed when other modulators of the same cardinality were created": M}
         if (not (abs(energy - 1) <= 1e-9)):
             return {"energy": energy}
         grid = np.arange(-30, 60.25, 0.5)
